@@ -22,6 +22,8 @@ class Calc(Transformer):
         return ('neg', a)
 
     def var(self, n):
+        if str(n) == 'boom':
+            raise ValueError('transformer callback refuses %r' % str(n))      # the callback-failure fault (a pure function of its input)
         return ('var', str(n))
 
     def start(self, *xs):
